@@ -2,8 +2,10 @@ package rules
 
 import (
 	"fmt"
+	"go/ast"
 	"go/token"
 	"go/types"
+	"golang.org/x/tools/go/types/typeutil"
 	"math/big"
 	"sort"
 	"strings"
@@ -124,6 +126,7 @@ func (c *Ctx) c10Jitter() {
 		r.OK("R10.2", "Trait.TTL", fmt.Sprintf("%d jitter paths match T + J·T·(r − 1/2), %d plain paths return T", nJ, nPlain))
 	}
 	c.defaultsRule("R10.2", map[string]*big.Rat{"ExpirationJitter": big.NewRat(1, 10), "TimeToLive": big.NewRat(5*60*1000000000, 1)})
+	c.configWriters("R10.2", "TimeToLive", "ExpirationJitter")
 }
 
 // defaultsRule: in Trait.init (NewTrait) each listed config field is replaced by its documented default exactly when 0.
@@ -139,7 +142,7 @@ func (c *Ctx) defaultsRule(rule string, want map[string]*big.Rat) {
 // configured, and the completed configuration is what the instance keeps in instField.
 func (c *Ctx) ctorDefaults(rule, name, instField string, want map[string]*big.Rat) {
 	r := c.R
-	e, paths, _, err := c.runFunc(name, pw.Policy{})
+	e, paths, _, err := c.runFunc(name, pw.Policy{Inline: inlineUnexported, MaxDepth: 2})
 	if err != nil {
 		r.Unknown(rule, name, err.Error())
 		return
@@ -204,7 +207,7 @@ func (c *Ctx) ctorDefaults(rule, name, instField string, want map[string]*big.Ra
 // reach the instance. fields: the defaulted fields the instance's code reads; instField: the instance field holding the copy.
 func (c *Ctx) storedAfterDefaults(rule, ctor, instField string, fields []string) {
 	r := c.R
-	_, paths, _, err := c.runFunc(ctor, pw.Policy{})
+	_, paths, _, err := c.runFunc(ctor, pw.Policy{Inline: inlineUnexported, MaxDepth: 2})
 	if err != nil {
 		r.Unknown(rule, ctor, err.Error())
 		return
@@ -238,6 +241,88 @@ func (c *Ctx) storedAfterDefaults(rule, ctor, instField string, fields []string)
 		r.Unknown(rule, ctor+":"+instField, "no store of the configuration into the instance found")
 	} else if !bad {
 		r.OK(rule, ctor+":"+instField, fmt.Sprintf("stored on %d paths after all of %v were completed", nCopy, fields))
+	}
+}
+
+// configWriters: who-may-write rule for fields of the backend Config: after the user's options ran, a field is only ever assigned by
+// the constructor's defaulting code (Trait.init / NewTrait). Any other assignment (a frontend "normalising" the BackendConfig it
+// hands on, a method adjusting its own Config at run time) changes what the user configured.
+func (c *Ctx) configWriters(rule string, fields ...string) {
+	r := c.R
+	want := map[string]bool{}
+	for _, f := range fields {
+		want[f] = true
+	}
+	info := c.Pkg.TypesInfo
+	n, bad := 0, false
+	// unexported helpers the defaulting code calls are part of it
+	helpers := map[*types.Func]bool{}
+	c.eachFuncDecl(func(fd *ast.FuncDecl, fn *types.Func) {
+		if encl := strings.TrimPrefix(pw.FuncName(fn), "cache."); encl != "Trait.init" && encl != "NewTrait" {
+			return
+		}
+		ast.Inspect(fd.Body, func(nd ast.Node) bool {
+			if call, ok := nd.(*ast.CallExpr); ok {
+				if callee, _ := typeutil.Callee(info, call).(*types.Func); callee != nil && !callee.Exported() && callee.Pkg() == c.Pkg.Types {
+					helpers[callee.Origin()] = true
+				}
+			}
+			return true
+		})
+	})
+	c.eachFuncDecl(func(fd *ast.FuncDecl, fn *types.Func) {
+		encl := strings.TrimPrefix(pw.FuncName(fn), "cache.")
+		if helpers[fn.Origin()] {
+			encl = "Trait.init"
+		}
+		ast.Inspect(fd.Body, func(nd ast.Node) bool {
+			var lhs []ast.Expr
+			switch st := nd.(type) {
+			case *ast.AssignStmt:
+				lhs = st.Lhs
+			case *ast.IncDecStmt:
+				lhs = []ast.Expr{st.X}
+			}
+			for _, l := range lhs {
+				sel, ok := ast.Unparen(l).(*ast.SelectorExpr)
+				if !ok {
+					continue
+				}
+				s := info.Selections[sel]
+				if s == nil || s.Kind() != types.FieldVal || !want[s.Obj().Name()] {
+					continue
+				}
+				// the field belongs to Config
+				owner := ""
+				t := s.Recv()
+				for _, idx := range s.Index() {
+					for {
+						if p, ok := t.Underlying().(*types.Pointer); ok {
+							t = p.Elem()
+							continue
+						}
+						break
+					}
+					owner = namedTypeName(t)
+					if st, ok := t.Underlying().(*types.Struct); ok {
+						t = st.Field(idx).Type()
+					}
+				}
+				if owner != "Config" {
+					continue
+				}
+				n++
+				if encl != "Trait.init" && encl != "NewTrait" {
+					bad = true
+					r.Bad(rule, encl, "config-rewritten:"+s.Obj().Name(), c.Pos(sel.Pos()), "Config."+s.Obj().Name()+" is assigned outside the constructor's defaulting code: the value the user configured is replaced", nil)
+				}
+			}
+			return true
+		})
+	})
+	r.Count("config_field_assignments", n)
+	if !bad {
+		r.OK(rule, "package:config-writers", fmt.Sprintf("%d assignments to %v, all in the constructor's defaulting code", n, fields))
 	}
 }
 
@@ -336,7 +421,7 @@ func (c *Ctx) c10ExpireAt() {
 				if b.Sharded && ev.Kind == pw.EvMapInsert && isShardData(ev) {
 					ent = pointee(ev.Value)
 				}
-				if !b.Sharded && syncMapOp(ev) == "Store" {
+				if !b.Sharded && isSyncStore(p, ev) {
 					ent = pointee(ev.Args[1])
 				}
 				if ent == nil {
